@@ -2,6 +2,9 @@ import OpdaProofs.Audit
 import OpdaProofs.Emp
 import OpdaProofs.ExtInst
 import OpdaProofs.EmpMore
+import OpdaProofs.EmpStep
+import OpdaProofs.EmpMoments
+import OpdaProofs.EmpReal
 /-!
 # C03 — EmpiricalDistribution pmf/cdf/ppf are the exact weighted step distribution
 
@@ -69,6 +72,143 @@ example : NonNeg ([(Ext.fin 1, (1:ℚ)/2), (Ext.fin 1, 1/4), (Ext.posInf, 0), (E
     rcases hp with rfl | rfl | rfl | rfl <;> norm_num
   · norm_num [total]
 
+
+/-! ### ppf at the end points -/
+
+/-- **ppf(0) = a** for every sample with non-negative weights (ties, zeros, infinite values, any bounds); positivity of
+the total weight is not needed. -/
+theorem ppf_zero (a b : E) (obs : List (E × α)) (hn : NonNeg obs) :
+    ppf a (support ⊥ ⊤ a b obs) 0 = a := Opda.Emp.ppf_zero a b obs hn
+
+/-- sharp form of `ppf_zero`: only the weight sitting exactly at `⊥` (−∞) matters — it must not be negative relative to
+the total.  (With a negative weight at −∞ the first cumulative level is negative, `argmax(0 ≤ cumsum)` moves on and
+`ppf 0` is *not* `a`.) -/
+theorem ppf_zero_sharp (a b : E) (obs : List (E × α)) (h : 0 ≤ weightEq ⊥ obs / total obs) :
+    ppf a (support ⊥ ⊤ a b obs) 0 = a := ppf_zero_of_bot_weight a b obs h
+
+/-- without an observation at −∞ no condition on the weights is needed at all -/
+theorem ppf_zero_no_bot_observation (a b : E) (obs : List (E × α)) (h : ∀ p ∈ obs, p.1 ≠ ⊥) :
+    ppf a (support ⊥ ⊤ a b obs) 0 = a := ppf_zero_of_no_bot a b obs h
+
+/-- the sign condition at −∞ is necessary: with weight −1 at −∞ (and 2 at 0, total 1 > 0, `a = −∞`) `ppf 0 = 0 ≠ a`. -/
+example : ppf Ext.negInf (support ⊥ ⊤ Ext.negInf (Ext.fin 0) ([(Ext.negInf, -1), (Ext.fin 0, 2)] : List (Ext × ℚ))) 0
+    = Ext.fin 0 := by
+  have hs : support ⊥ ⊤ Ext.negInf (Ext.fin 0) ([(Ext.negInf, -1), (Ext.fin 0, 2)] : List (Ext × ℚ))
+      = [(Ext.negInf, -1), (Ext.fin 0, 2), (Ext.posInf, 0)] := by
+    simp [support, atoms, insertAtom, Ext.lt_iff, Ext.lt, Ext.bot_eq, Ext.top_eq]
+  rw [hs]
+  norm_num [ppf, cumN, cum, cumAux, firstReach, total, Ext.lt_iff, Ext.lt]
+
+/-- **ppf(1) is the smallest point of `[a, +∞]` where the cdf reaches 1.** -/
+theorem ppf_one_least_full_point (a b : E) (obs : List (E × α)) (hn : NonNeg obs) (htot : 0 < total obs) :
+    cdf (support ⊥ ⊤ a b obs) (ppf a (support ⊥ ⊤ a b obs) 1) = 1
+      ∧ ∀ y, a ≤ y → cdf (support ⊥ ⊤ a b obs) y = 1 → ppf a (support ⊥ ⊤ a b obs) 1 ≤ y :=
+  ppf_one_least a b obs hn htot
+
+/-- ppf is non-decreasing on the whole closed interval `[0,1]` (the level 0 included). -/
+theorem ppf_monotone_closed (a b : E) (obs : List (E × α)) (hn : NonNeg obs) (htot : 0 < total obs)
+    (q q' : α) (hq0 : 0 ≤ q) (hqq : q ≤ q') (hq1 : q' ≤ 1) :
+    ppf a (support ⊥ ⊤ a b obs) q ≤ ppf a (support ⊥ ⊤ a b obs) q' := ppf_mono_closed a b obs hn htot q q' hq0 hqq hq1
+
+/-! ### step function, right-continuity, jumps -/
+
+/-- **the cdf is constant between consecutive observations** (any weights): no observation in `(y, y']` ⇒ `cdf y = cdf y'`. -/
+theorem cdf_step (a b : E) (obs : List (E × α)) (y y' : E) (h : y ≤ y')
+    (hno : ∀ p ∈ obs, ¬ (y < p.1 ∧ p.1 ≤ y')) :
+    cdf (support ⊥ ⊤ a b obs) y = cdf (support ⊥ ⊤ a b obs) y' := Opda.Emp.cdf_step a b obs y y' h hno
+
+/-- **right-continuous**, order form: every `y ≠ +∞` has a right neighbourhood `[y, y')` on which the cdf is constant. -/
+theorem cdf_right_continuous (a b : E) (obs : List (E × α)) (y : E) (hy : y < ⊤) :
+    ∃ y', y < y' ∧ ∀ z, y ≤ z → z < y' → cdf (support ⊥ ⊤ a b obs) z = cdf (support ⊥ ⊤ a b obs) y :=
+  Opda.Emp.cdf_right_continuous a b obs y hy
+
+/-- **right-continuous**, real form (values in `EReal`): for every real `y` there is `δ > 0` with `cdf y' = cdf y` on `[y, y+δ)`. -/
+theorem cdf_right_continuous_real (a b : EReal) (obs : List (EReal × α)) (y : ℝ) :
+    ∃ δ : ℝ, 0 < δ ∧ ∀ y' : ℝ, y ≤ y' → y' < y + δ →
+      cdf (support ⊥ ⊤ a b obs) (y' : EReal) = cdf (support ⊥ ⊤ a b obs) (y : EReal) :=
+  Opda.Emp.cdf_right_continuous_real a b obs y
+
+/-- `F(y) = F(y⁻) + mass(y)` at the level of weights -/
+theorem weight_le_eq_lt_add_eq (y : E) (obs : List (E × α)) :
+    weightLE y obs = weightLT y obs + weightEq y obs := weightLE_eq_weightLT_add_weightEq y obs
+
+/-- **pmf is the jump of the cdf**: `pmf(y) = cdf(y) − (weight strictly below y)/total`. -/
+theorem pmf_is_jump (a b y : E) (obs : List (E × α)) :
+    pmf (support ⊥ ⊤ a b obs) y = cdf (support ⊥ ⊤ a b obs) y - weightLT y obs / total obs :=
+  pmf_eq_cdf_sub_weightLT a b y obs
+
+/-- … and the subtracted term is the cdf at any `z < y` with no observation strictly between: `pmf(y) = cdf(y) − cdf(z)`. -/
+theorem pmf_is_jump_from_left (a b z y : E) (obs : List (E × α)) (hzy : z < y)
+    (hno : ∀ p ∈ obs, ¬ (z < p.1 ∧ p.1 < y)) :
+    pmf (support ⊥ ⊤ a b obs) y = cdf (support ⊥ ⊤ a b obs) y - cdf (support ⊥ ⊤ a b obs) z :=
+  pmf_eq_cdf_sub_cdf_left a b z y obs hzy hno
+
+/-- non-vacuity of `cdf_step` / `pmf_is_jump_from_left`: a gap of a tied sample. -/
+example : (Ext.fin 1 ≤ Ext.fin 2)
+    ∧ (∀ p ∈ ([(Ext.fin 1, (1:ℚ)/2), (Ext.fin 1, 1/4), (Ext.fin 3, 1/4)] : List (Ext × ℚ)),
+        ¬ (Ext.fin 1 < p.1 ∧ p.1 ≤ Ext.fin 2))
+    ∧ (∀ p ∈ ([(Ext.fin 1, (1:ℚ)/2), (Ext.fin 1, 1/4), (Ext.fin 3, 1/4)] : List (Ext × ℚ)),
+        ¬ (Ext.fin 1 < p.1 ∧ p.1 < Ext.fin 3)) := by
+  refine ⟨by decide, ?_, ?_⟩ <;>
+  · intro p hp
+    simp only [List.mem_cons, List.not_mem_nil, or_false] at hp
+    rcases hp with rfl | rfl | rfl <;> norm_num [Ext.lt_iff, Ext.le_iff, Ext.lt]
+
+/-! ### mean and variance -/
+
+/-- **unweighted**: `mean = Σ y_i / N`, `variance = Σ (y_i − mean)² / N` (`np.mean`, `np.var`). -/
+theorem moments_unweighted (ys : List α) :
+    moments ys none
+      = (ys.sum / (ys.length : α),
+         (ys.map fun y => (y - ys.sum / (ys.length : α)) * (y - ys.sum / (ys.length : α))).sum / (ys.length : α)) :=
+  moments_none ys
+
+/-- **weighted** (`ws ≥ 0`): `mean = Σ_i w_i y_i`, `variance = Σ_i w_i (y_i − mean)²` over *all* `i` — the `where=ws>0`
+guard drops only zero terms. -/
+theorem moments_weighted (ys ws : List α) (hw : ∀ w ∈ ws, 0 ≤ w) :
+    moments ys (some ws)
+      = (((ys.zip ws).map fun p => p.2 * p.1).sum,
+         ((ys.zip ws).map fun p => p.2 * ((p.1 - ((ys.zip ws).map fun p => p.2 * p.1).sum)
+            * (p.1 - ((ys.zip ws).map fun p => p.2 * p.1).sum))).sum) := moments_some ys ws hw
+
+/-- the two branches of the model agree at the uniform weights `1/N` -/
+theorem moments_branches_agree (ys : List α) (hne : ys ≠ []) :
+    moments ys none = moments ys (some (List.replicate ys.length (1 / (ys.length : α)))) :=
+  moments_none_eq_uniform ys hne
+
+/-- **mean and variance are the moments of the step distribution** (weighted, `Σ w = 1`): `Σ_v pmf(v)·v` and
+`Σ_v pmf(v)·(v − mean)²` over the merged atoms `v`, with `pmf` the constructor model's pmf (`ι` embeds the finite values
+into the extended value type, e.g. `Ext.fin`). -/
+theorem moments_weighted_are_step_moments (ι : α → E) (hι : Function.Injective ι) (a b : E) (ys ws : List α)
+    (hw : ∀ w ∈ ws, 0 ≤ w) (htot : total (ys.zip ws) = 1) :
+    moments ys (some ws)
+      = (((atoms (ys.zip ws)).map fun p =>
+            pmf (support ⊥ ⊤ a b ((ys.zip ws).map fun p => (ι p.1, p.2))) (ι p.1) * p.1).sum,
+         ((atoms (ys.zip ws)).map fun p =>
+            pmf (support ⊥ ⊤ a b ((ys.zip ws).map fun p => (ι p.1, p.2))) (ι p.1)
+              * ((p.1 - (moments ys (some ws)).1) * (p.1 - (moments ys (some ws)).1))).sum) :=
+  moments_some_eq_step ι hι a b ys ws hw htot
+
+/-- the same for `ws = None` (each observation enters the constructor with weight 1, as in the driver). -/
+theorem moments_unweighted_are_step_moments (ι : α → E) (hι : Function.Injective ι) (a b : E) (ys : List α) :
+    moments ys none
+      = (((atoms (ys.map fun y => (y, (1 : α)))).map fun p =>
+            pmf (support ⊥ ⊤ a b (ys.map fun y => (ι y, (1 : α)))) (ι p.1) * p.1).sum,
+         ((atoms (ys.map fun y => (y, (1 : α)))).map fun p =>
+            pmf (support ⊥ ⊤ a b (ys.map fun y => (ι y, (1 : α)))) (ι p.1)
+              * ((p.1 - (moments ys none).1) * (p.1 - (moments ys none).1))).sum) :=
+  moments_none_eq_step ι hι a b ys
+
+/-- non-vacuity of the weighted-moment theorems: tied values, a zero weight, weights summing to 1; and `Ext.fin` is an
+admissible embedding. -/
+example : (∀ w ∈ ([(1:ℚ)/2, 1/4, 0, 1/4] : List ℚ), 0 ≤ w)
+    ∧ total (([3, 3, 7, -1] : List ℚ).zip [(1:ℚ)/2, 1/4, 0, 1/4]) = 1
+    ∧ Function.Injective Ext.fin := by
+  refine ⟨?_, by norm_num [total], fun p q h => by injection h⟩
+  intro w hw
+  simp only [List.mem_cons, List.not_mem_nil, or_false] at hw
+  rcases hw with rfl | rfl | rfl | rfl <;> norm_num
+
 /-! ### the same statements about the terms the driver evaluates -/
 
 theorem cdf_driver (a b y : Ext) (obs : List (Ext × Rat)) :
@@ -84,6 +224,16 @@ theorem ppf_driver (a b y : Ext) (obs : List (Ext × Rat)) (hn : NonNeg obs) (ht
     ppf a (support Ext.negInf Ext.posInf a b obs) q ≤ y
       ↔ q ≤ cdf (support Ext.negInf Ext.posInf a b obs) y :=
   ppf_le_iff (E := Ext) (α := Rat) a b y obs hn htot q hq0 hq1 hay
+
+theorem ppf_zero_driver (a b : Ext) (obs : List (Ext × Rat)) (hn : NonNeg obs) :
+    ppf a (support Ext.negInf Ext.posInf a b obs) 0 = a :=
+  Opda.Emp.ppf_zero (E := Ext) (α := Rat) a b obs hn
+
+theorem ppf_one_driver (a b : Ext) (obs : List (Ext × Rat)) (hn : NonNeg obs) (htot : 0 < total obs) :
+    cdf (support Ext.negInf Ext.posInf a b obs) (ppf a (support Ext.negInf Ext.posInf a b obs) 1) = 1
+      ∧ ∀ y, a ≤ y → cdf (support Ext.negInf Ext.posInf a b obs) y = 1
+          → ppf a (support Ext.negInf Ext.posInf a b obs) 1 ≤ y :=
+  ppf_one_least (E := Ext) (α := Rat) a b obs hn htot
 
 end Opda.Props.C03
 
